@@ -101,11 +101,11 @@ theorem desApply_shift (m inv : Bool) (c : Int) (z : Series) (s : List Rat) :
       simp only [desApply, shiftSeries, List.map_cons, List.zipWith_cons_cons] at this ⊢
       rw [this]
 
-theorem desDecompose_shift (c : Int) (s1 : Des) (z : Series) (d : FitData) :
-    desDecompose (shiftDes c s1) (shiftSeries c z) d
-      = (shiftDes c (desDecompose s1 z d).1, (desDecompose s1 z d).2) := by
+theorem desDecompose_shift (c : Int) (s : Des) (z : Series) (d : FitData) :
+    desDecompose (shiftDes c s) (shiftSeries c z) d
+      = (shiftDes c (desDecompose s z d).1, (desDecompose s z d).2) := by
   unfold desDecompose
-  simp only [shiftDes, decompOk_shift]
+  simp only [shiftDes, decompOk_shift, head?_labels_shift]
   split
   · rfl
   · cases d.seasonal <;> rfl
@@ -118,13 +118,13 @@ theorem desFit_shift (c : Int) (s : Des) (inp : Input) (d : FitData) :
   cases checkSeries false inp with
   | error e => rfl
   | ok z =>
-    simp only [Except.map, head?_labels_shift]
+    simp only [Except.map]
     have hc : (shiftDes c s).cond = s.cond := rfl
     rw [hc]
     cases hcond : s.cond with
     | false =>
       simp only [Bool.false_eq_true, ↓reduceIte]
-      exact desDecompose_shift c { s with y0 := (labels z).head?, cond := false } z d
+      exact desDecompose_shift c s z d
     | true =>
       simp only [↓reduceIte]
       cases d.isSeasonal with
@@ -133,8 +133,10 @@ theorem desFit_shift (c : Int) (s : Des) (inp : Input) (d : FitData) :
         cases b with
         | true =>
           dsimp only
-          exact desDecompose_shift c { s with y0 := (labels z).head?, cond := true } z d
-        | false => rfl
+          exact desDecompose_shift c s z d
+        | false =>
+          simp only [head?_labels_shift]
+          rfl
 
 theorem desUpdate_shift (c : Int) (s : Des) (inp : Input) :
     desUpdate (shiftDes c s) (shiftInput c inp)
@@ -145,9 +147,7 @@ theorem desUpdate_shift (c : Int) (s : Des) (inp : Input) :
   split
   · rfl
   · rw [checkSeries_shift]
-    cases checkSeries false inp with
-    | error e => rfl
-    | ok z => simp only [Except.map, head?_labels_shift]; rfl
+    cases checkSeries false inp <;> rfl
 
 theorem desTransform_shift (c : Int) (s : Des) (inv : Bool) (inp : Input) :
     desTransform (shiftDes c s) inv (shiftInput c inp)
